@@ -594,7 +594,7 @@ func (s *sys) Do(op string) (string, *eng.Violation) {
 		case err == nil:
 			v = eng.V("remove-missing-succeeded", "RemoveChild", fmt.Sprintf("RemoveChild(%s): name is not in the directory {%s} but no error was returned", n.tag, s.modelKey()), s.feats("name_class", n.class)...)
 		case !errors.Is(err, os.ErrNotExist):
-			v = eng.V("remove-missing-wrong-error", "RemoveChild", fmt.Sprintf("RemoveChild(%s) of a missing name returned %v, want os.ErrNotExist", n.tag, err), s.feats("name_class", n.class)...)
+			v = eng.V("remove-missing-wrong-error", "RemoveChild", fmt.Sprintf("RemoveChild(%s) of a missing name returned %v, want os.ErrNotExist", n.tag, err), s.feats("name_class", n.class, "reloaded", fmt.Sprint(s.reloaded), "error", errKind(err))...)
 		}
 	case "reload":
 		nd, err := s.c.reload(s.dserv, s.dir)
@@ -670,7 +670,7 @@ func (s *sys) Check() *eng.Violation {
 	}
 	ck := ""
 	if s.key != "" {
-		ck = s.cfgStr + "\x00" + s.key
+		ck = strings.TrimSuffix(s.cfgStr, "/deep") + "\x00" + s.key
 		if _, done := checkedStates.Load(ck); done {
 			s.r.Add("checks_skipped_state_already_checked", 1)
 			return nil
